@@ -108,7 +108,10 @@ def running_cases(rng, tier):
     the real controller over the recording Manager: after every burst the harness regenerates every served resource from the stores
     with a fresh Configurator and reports the upstreams whose running server list differs (`END|u:<upstream>`)."""
     cases = []
-    seqs = ["+e1.0/s1/a+b;-e1.0;+e1.0/s1/c", "+e1.0/s1/a;+e1.0/s1/_;+e1.0/s1/b", "+e1.0/s1/a+b;+e1.1/s1/c;-e1.0;-e1.1", "+e1.0/s1/a;+e1.0/s1/a+c;+e1.0/s1/c"]
+    seqs = ["+e1.0/s1/a+b;-e1.0;+e1.0/s1/c", "+e1.0/s1/a;+e1.0/s1/_;+e1.0/s1/b", "+e1.0/s1/a+b;+e1.1/s1/c;-e1.0;-e1.1", "+e1.0/s1/a;+e1.0/s1/a+c;+e1.0/s1/c",
+            # the Service's targetPort is edited in place: Kubernetes rewrites the slice's port, the endpoints stay as they are
+            "+e1.0/s1/a+b;+s1/0/tp=9090&+e1.0/s1/a+b/port=9090", "+e1.0/s1/a+b;+s1/0/tp=9090;+e1.0/s1/a+b/port=9090",
+            "+e1.0/s1/a+b;+e1.0/s1/a+b/port=9090;+s1/0/tp=9090", "+e1.0/s1/a+b;+s1/0/tp=9090&+e1.0/s1/a+b/port=9090;+s1/0&+e1.0/s1/a+b"]
     for plus in (0, 1):
         for res in ("+v1/s1/0", "+i1/s1/0", "+t1/s1/0", "+v1/s1/0&+i1/s1/0"):
             for sq in seqs:
@@ -291,9 +294,19 @@ def judge(case, impl, model, spec):
     return r
 
 
+def sig_tp_edit(case, issue):
+    """S-C14-b: a Service targetPort edit delivered in a burst of its own (not together with the EndpointSlice rewrite) is ignored by the
+    Service handler; the staleness that follows is this finding."""
+    import re
+    if "written server list differs from the ready endpoints" not in issue and "keeps running with servers" not in issue:
+        return False
+    bursts = case.get("line", "").split("bursts=")[-1].split(";")
+    return any(re.fullmatch(r"\+s\d+/\d+/tp=\d+", b) for b in bursts)
+
+
 def sig_unnamed_port(case, issue):
     """S-C14-a: numeric reference to a number the single unnamed service port does not have is wired to that port."""
     return False
 
 
-SIGNATURES = {}
+SIGNATURES = {"service-targetport-edit-not-synced": sig_tp_edit}
